@@ -12,7 +12,7 @@ one() {
   ( cd "$D/sftp" && patch -p1 -s < "$OLDPWD/$d/patch.diff" ) || { echo "$name: patch does not apply"; rm -rf "$D"; return; }
   out=$(VERIF_REPO="$D/sftp" ./check "$id" --tier "$TIER" 2>&1); rc=$?
   rm -rf "$D"
-  first=$(echo "$out" | grep "key=" | head -1 | cut -c1-160)
+  first=$(echo "$out" | grep -a "key=" | head -1 | cut -c1-160)
   if [ $rc -eq 1 ]; then echo "$name: detected by $id ($first)"; else echo "$name: MISSED by $id rc=$rc"; fi
 }
 export -f one
